@@ -33,7 +33,8 @@ def parse(case, out):
         n = out[3]
         d["close_kind"] = out[2]
         d["slots"] = [(out[4 + 2 * i], out[5 + 2 * i]) for i in range(n)]
-        d["total"], d["log"] = parse_log(out, 4 + 2 * n)
+        d["parked_at_close"] = out[4 + 2 * n]
+        d["total"], d["log"] = parse_log(out, 5 + 2 * n)
     elif k == 3:
         d["n"], d["done"] = out[2], out[3]
         d["total"], d["log"] = parse_log(out, 4)
@@ -43,6 +44,12 @@ def parse(case, out):
     elif k == 5:
         d["sent"], d["received"], d["received_ok"] = out[2], out[3], out[4]
         d["total"], d["log"] = parse_log(out, 5)
+    elif k == 6:
+        d["hdr_ok"], d["returned"], d["expected"], d["rest_ok"] = out[2:6]
+        d["total"], d["log"] = parse_log(out, 6)
+    elif k == 7:
+        d["rounds_done"], d["final_got"], d["final_ok"], d["stop_seen"] = out[2:6]
+        d["total"], d["log"] = parse_log(out, 6)
     return d
 
 
@@ -103,7 +110,10 @@ def by_conn(d):
 SLOT_NAMES = {1: "client read on a bidi stream", 2: "client write blocked on flow control", 3: "client open_uni_wait without credit",
               4: "client accept_uni", 5: "client accept_bi", 6: "client recv_datagram", 7: "client SendStream::stopped",
               8: "client RecvStream::received_reset", 9: "client Endpoint::wait_incoming", 11: "server read on a bidi stream",
-              12: "server accept_uni", 13: "server recv_datagram", 14: "server Endpoint::wait_incoming"}
+              12: "server accept_uni", 13: "server recv_datagram", 14: "server Endpoint::wait_incoming",
+              21: "spawned task in send_datagram_wait on a full send buffer (1)",
+              22: "spawned task in send_datagram_wait on a full send buffer (2)",
+              23: "spawned task in send_datagram_wait on a full send buffer (3)"}
 
 
 def oracle(case, out):
@@ -173,7 +183,44 @@ def oracle(case, out):
         if d["received_ok"] != d["received"] or d["received"] > d["sent"]:
             return "received %d datagrams, %d intact, %d sent" % (d["received"], d["received_ok"], d["sent"])
         return None
+    if d["kind"] == 6:
+        if d["verdict"] != 0:
+            return "read_to_end scenario did not finish"
+        if not d["hdr_ok"]:
+            return "the first %d bytes read from the stream differ from what was sent" % case[2]
+        if d["returned"] != d["expected"] or not d["rest_ok"]:
+            return ("read_to_end after %d bytes had been consumed returned %d bytes (expected the remaining %d), content %s"
+                    % (case[2], d["returned"], d["expected"], "equal" if d["rest_ok"] else "DIFFERENT (shifted / zero prefix / truncated)"))
+        return None
+    if d["kind"] == 7:
+        rounds = case[3]
+        if d["verdict"] != 0:
+            return ("after %d of %d streams were stopped by the peer and dropped without reset()/finish(), with %d concurrent "
+                    "streams allowed: the next open_%s_wait / stream never completed (the dropped streams were not closed "
+                    "towards the peer, their credit did not come back)" % (d["rounds_done"], rounds, case[2], "bi" if case[1] else "uni"))
+        if d["rounds_done"] != rounds:
+            return "only %d of %d rounds ran" % (d["rounds_done"], rounds)
+        if d["final_got"] != case[6] + 4 or not d["final_ok"]:
+            return "the stream opened after the dropped ones delivered %d bytes (expected %d) or wrong content" % (d["final_got"], case[6] + 4)
+        if case[5] == 0 and d["stop_seen"] != rounds:
+            return "stopped() reported the peer's stop code in %d of %d rounds" % (d["stop_seen"], rounds)
+        return None
     return None
+
+
+def hits(case, out):
+    """which of the strengthening behaviour classes this run exercised"""
+    d = parse(case, out)
+    if d is None:
+        return []
+    h = []
+    if d["kind"] == 2 and d.get("parked_at_close", 0) >= 1:
+        h.append("send_datagram_wait parked at close")
+    if d["kind"] == 6 and case[2] > 0:
+        h.append("read_to_end after partial read")
+    if d["kind"] == 7:
+        h.append("stopped SendStream dropped implicitly")
+    return h
 
 
 class C16(diffcheck.DiffProp):
@@ -189,7 +236,7 @@ class C16(diffcheck.DiffProp):
     gen = gen_c16
     shards = 8
     thorough_release = False
-    counts = {"quick": 120, "thorough": 3000}
+    counts = {"quick": 160, "thorough": 3000}
     rule = ("cases = corpus (accepted_0rtt with several waiters, the four close points, window/limit corner cases) + random: ~70% data "
             "sessions (0-5 uni + 0-4 bidi concurrent streams, payload 0..200 KB each, write/read chunk 1..70000, stream/connection "
             "receive windows 200..1.25 MB, send window, max concurrent uni/bidi streams 1..100 with open_*_wait, reader pacing, 0-8 "
